@@ -129,7 +129,7 @@ func main() {
 				mustJSON(desc, c)
 				c.norm()
 			} else {
-				c = genC03(r, gidx, *tier)
+				c = genC03Decoy(r, gidx, *tier)
 			}
 			runC03(e, idx, c)
 		case "C04":
